@@ -12,7 +12,7 @@ Nothing is matched by name suffix or by source text.
 import ast
 import itertools
 
-from sa.core import AnalysisError, ClassRef, NotFoldable, Opaque, unparse
+from sa.core import AnalysisError, ClassRef, NotFoldable, Opaque, subst_locals, unparse
 from sa.report import Finding, RuleResult
 from sa.symx import PathEnumerator, Sym
 
@@ -317,7 +317,7 @@ class Atomizer(object):
         rets = [n for n in ast.walk(fi.node) if isinstance(n, ast.Return)]
         if len(rets) != 1 or rets[0].value is None:
             return ("opaque", "workflow_state.%s" % attr)
-        v = rets[0].value
+        v = subst_locals(fi.node, rets[0].value)
         # len(X) > 0   |  bool(X)  |  X
         inner = None
         if (isinstance(v, ast.Compare) and len(v.ops) == 1 and isinstance(v.ops[0], ast.Gt)
@@ -1291,9 +1291,11 @@ def rule_T5(facts):
         for node in ast.walk(f.node):
             if isinstance(node, ast.Call) and isinstance(node.func, ast.Name) and \
                     node.func.id == "isinstance" and len(node.args) == 2:
-                tgt = prog.resolve_name_expr(node.args[1], f.module)
-                if tgt is not None and hasattr(tgt, "name"):
-                    handled.add(tgt.name)
+                a1 = node.args[1]
+                for te in (a1.elts if isinstance(a1, ast.Tuple) else [a1]):
+                    tgt = prog.resolve_name_expr(te, f.module)
+                    if tgt is not None and hasattr(tgt, "name"):
+                        handled.add(tgt.name)
         for c in concrete:
             names = {x.name for x in prog.mro(c)}
             relevant = names & set(must)
